@@ -436,19 +436,19 @@ def _do_rewrite(source: str, rewrite: _Rewrite, *, fix_function_name: str = "") 
     except SyntaxError:
         pass  # new_code is not necessarily valid python syntax in all cases
     else:
-        for node in core.walk(new_code_ast, (ast.Constant(value=str), ast.JoinedStr)):
-            node_code = core.get_code(node, new_code)
-            if any(
-                node_code.startswith(prefix) and node_code.endswith(prefix[-3:])
-                for prefix in ("b'''", "r'''", "f'''", "'''", 'b"""', 'r"""', 'f"""', '"""')
-            ):
-                for lineno in range(node.lineno, node.end_lineno):
-                    indents[lineno] = 0
+        for node in core.walk(new_code_ast, (ast.Constant(value=(str, bytes)), ast.JoinedStr)):
+            # Lines that begin inside a string literal, whatever its prefix, belong to its value
+            for lineno in range(node.lineno, node.end_lineno):
+                indents[lineno] = None
 
-    new_code = "".join(
-        f"{' ' * indents[i]}{code}".rstrip() + ("\n" if code.endswith("\n") else "")
-        for i, code in enumerate(lines)
-    )
+    for i, code in enumerate(lines):
+        if indents[i] is not None:
+            code = " " * indents[i] + code
+        if indents.get(i + 1, 0) is not None:  # Trailing whitespace is not part of a literal
+            code = code.rstrip() + ("\n" if code.endswith("\n") else "")
+        lines[i] = code
+
+    new_code = "".join(lines)
 
     if core.has_ignore_comment(source, core.Range(start, end)):
         return source
